@@ -16,9 +16,9 @@ theories/PipeIn/Term.vos theories/PipeIn/Term.vok theories/PipeIn/Term.required_
 theories/PipeIn/OneShot.vo theories/PipeIn/OneShot.glob theories/PipeIn/OneShot.v.beautified theories/PipeIn/OneShot.required_vo: theories/PipeIn/OneShot.v theories/PipeIn/Model.vo theories/PipeIn/Inv.vo theories/PipeIn/Term.vo
 theories/PipeIn/OneShot.vio: theories/PipeIn/OneShot.v theories/PipeIn/Model.vio theories/PipeIn/Inv.vio theories/PipeIn/Term.vio
 theories/PipeIn/OneShot.vos theories/PipeIn/OneShot.vok theories/PipeIn/OneShot.required_vos: theories/PipeIn/OneShot.v theories/PipeIn/Model.vos theories/PipeIn/Inv.vos theories/PipeIn/Term.vos
-theories/PipeIn/PropsC11.vo theories/PipeIn/PropsC11.glob theories/PipeIn/PropsC11.v.beautified theories/PipeIn/PropsC11.required_vo: theories/PipeIn/PropsC11.v theories/PipeIn/Model.vo theories/PipeIn/Inv.vo theories/PipeIn/Thm.vo theories/PipeIn/Term.vo
-theories/PipeIn/PropsC11.vio: theories/PipeIn/PropsC11.v theories/PipeIn/Model.vio theories/PipeIn/Inv.vio theories/PipeIn/Thm.vio theories/PipeIn/Term.vio
-theories/PipeIn/PropsC11.vos theories/PipeIn/PropsC11.vok theories/PipeIn/PropsC11.required_vos: theories/PipeIn/PropsC11.v theories/PipeIn/Model.vos theories/PipeIn/Inv.vos theories/PipeIn/Thm.vos theories/PipeIn/Term.vos
+theories/PipeIn/PropsC11.vo theories/PipeIn/PropsC11.glob theories/PipeIn/PropsC11.v.beautified theories/PipeIn/PropsC11.required_vo: theories/PipeIn/PropsC11.v theories/PipeIn/Model.vo theories/PipeIn/Inv.vo theories/PipeIn/Thm.vo theories/PipeIn/Term.vo theories/PipeIn/OneShot.vo
+theories/PipeIn/PropsC11.vio: theories/PipeIn/PropsC11.v theories/PipeIn/Model.vio theories/PipeIn/Inv.vio theories/PipeIn/Thm.vio theories/PipeIn/Term.vio theories/PipeIn/OneShot.vio
+theories/PipeIn/PropsC11.vos theories/PipeIn/PropsC11.vok theories/PipeIn/PropsC11.required_vos: theories/PipeIn/PropsC11.v theories/PipeIn/Model.vos theories/PipeIn/Inv.vos theories/PipeIn/Thm.vos theories/PipeIn/Term.vos theories/PipeIn/OneShot.vos
 theories/PipeIn/PropsC11_examples.vo theories/PipeIn/PropsC11_examples.glob theories/PipeIn/PropsC11_examples.v.beautified theories/PipeIn/PropsC11_examples.required_vo: theories/PipeIn/PropsC11_examples.v theories/PipeIn/Model.vo theories/PipeIn/Sim.vo theories/PipeIn/Inv.vo theories/PipeIn/Thm.vo
 theories/PipeIn/PropsC11_examples.vio: theories/PipeIn/PropsC11_examples.v theories/PipeIn/Model.vio theories/PipeIn/Sim.vio theories/PipeIn/Inv.vio theories/PipeIn/Thm.vio
 theories/PipeIn/PropsC11_examples.vos theories/PipeIn/PropsC11_examples.vok theories/PipeIn/PropsC11_examples.required_vos: theories/PipeIn/PropsC11_examples.v theories/PipeIn/Model.vos theories/PipeIn/Sim.vos theories/PipeIn/Inv.vos theories/PipeIn/Thm.vos
